@@ -64,8 +64,8 @@ ALLOWED_ASSUMPTIONS = {
     "assume_specification": {"i64::rem_euclid", "i128::rem_euclid", "i128::div_euclid", "i64::abs", "i32::saturating_abs",
                              "i64::saturating_sub", "i32::saturating_sub", "i32::rem_euclid", "i32::div_euclid", "i64::div_euclid", "i32::abs",
                              "i64::saturating_abs", "i64::saturating_add", "i32::saturating_add", "i32::wrapping_abs", "i64::wrapping_abs",
-                             "i32::unsigned_abs", "i64::unsigned_abs"},
-    "external_body": {"utc", "equal", "axiom_slice_len_transitions", "axiom_slice_len_leaps"},
+                             "i32::unsigned_abs", "i64::unsigned_abs", "<FoundDateTimeList as Default>::default"},
+    "external_body": {"utc", "equal", "axiom_slice_len_transitions", "axiom_slice_len_leaps", "windows2_all_le", "swap_pairs", "position_gt"},
 }
 
 
@@ -92,6 +92,7 @@ STD_SPEC_STATUS = {
     "i32::saturating_sub": "Kani cross-check complete (std_spec_saturating)",
     "i64::saturating_add": "Kani cross-check complete (std_spec_saturating; not used by the unchanged tree)",
     "i32::saturating_add": "Kani cross-check complete (std_spec_saturating; not used by the unchanged tree)",
+    "<FoundDateTimeList as Default>::default": "derived Default of the Vec wrapper yields the empty list; Kani cross-check complete (find_abstractions::default_list_is_empty)",
 }
 
 
@@ -120,6 +121,8 @@ def check_assumptions(found, text):
                 continue
             if name.startswith("axiom_slice_len"):
                 out.append("ASSUMED `%s`: a slice's size in bytes never exceeds isize::MAX (Rust language guarantee; Verus only knows len <= usize::MAX)" % name)
+            elif name in ("windows2_all_le", "swap_pairs", "position_gt"):
+                out.append("external_body contract on helper `%s` standing for an iterator-adapter expression of find_date_time (rule R10); proved for the original expression on every [i64; 7] by the Kani harness find_abstractions::%s_contract" % (name, name))
             elif name.startswith("axiom_"):
                 out.append("ASSUMED lemma `%s` (external_body proof fn, not proved)" % name)
             else:
@@ -218,7 +221,7 @@ def verus_property(pid, prop, tier, seed, out, work):
         return text, ex, fns, items, spans, res
     # obligations = exec functions and lemmas of the cone, as reported by Verus
     exec_names = {ex.functions[k]["qual"] for k in fns}
-    assumed_lemmas = sorted(it[0] for it in items if it[1] == "proof" and "verifier::external_body" in it[2])
+    assumed_lemmas = sorted(it[0] for it in items if it[1] in ("proof", "exec") and "verifier::external_body" in it[2])
     proof_names = {it[0] for it in items if it[1] in ("proof", "exec") and it[0] not in assumed_lemmas}
     obligations, discharged, samples = 0, 0, []
     missing = []
